@@ -42,7 +42,7 @@ WITNESSES = [
                   {'op': 'cancel_group', 'batch': 1, 'group': 0},
                   {'op': 'mark_complete', 'batch': 1, 'job': 1, 'attempt': 'a1', 'instance': 'p1', 'state': 'Cancelled', 'start': None, 'end': 40,
                    'reason': 'cancelled', 'time': 41}]),
-    dict(name='C03: activation-timeout attempt is billed by a late complete report and un-billed by the next heartbeat', fixed_by=None,
+    dict(name='C03: activation-timeout attempt is billed by a late complete report and un-billed by the next heartbeat', fixed_by='124',
          expect=['C03:activation-timeout-attempt-billed:late-report-on-timed-out-attempt', 'C03:billed-time-decreased:timed-out-attempt-that-got-a-start',
                  'C03:start-moved-later:timed-out-attempt-that-got-a-start'],
          history=[B, U(1, 1), CJ(1, [J(1, inst_coll='job-private')]), CM(1),
